@@ -679,6 +679,38 @@ def _reads_container(node, container_src, kind):
     return False
 
 
+def bind_role():
+    """MethodContext.set_out_protocol binds a protocol instance that has no application yet: a lazily initialised
+    shared object (probe = the `.app is None` test, publish = the set_app call)"""
+    from spyne.server.wsgi import WsgiMethodContext
+    f = _func(WsgiMethodContext.out_protocol.fset)      # the setter the WSGI request contexts really use
+    r = Role('bind', f, 'self._out_protocol', "'app'", lambda c, k: c.app is not None)
+    for n in ast.walk(r.fd):
+        if isinstance(n, ast.If) and '.app' in seg(n.test) and 'None' in seg(n.test):
+            r.probe.add(n.lineno)
+            for b in ast.walk(n):
+                if isinstance(b, ast.Expr) and 'set_app(' in seg(b):
+                    r.store.add(b.lineno)
+    r.order = 'afterInit' if r.store else 'missing'
+    return r
+
+
+def rebind_raises():
+    """does binding a protocol instance to the application it is already bound to raise (check-then-act in
+    set_out_protocol then fails for the loser of a race)"""
+    from spyne import Application
+    from spyne.protocol.xml import XmlDocument
+    S = services()
+    app = Application([S['XSvc']], 'c12', in_protocol=XmlDocument(), out_protocol=XmlDocument())
+    p = XmlDocument()
+    p.set_app(app)
+    try:
+        p.set_app(app)
+        return False
+    except Exception:       # noqa
+        return True
+
+
 def extract_roles():
     from spyne.protocol._base import ProtocolMixin
     from spyne.util import memo
@@ -696,6 +728,7 @@ def extract_roles():
             continue
         seen.add(f.__code__)
         roles.append(cache_role('memo', f, 'self.memo', 'key', dget))
+    roles.append(bind_role())
     return roles
 
 
@@ -1072,11 +1105,23 @@ def note(op, *data):
         run.log(run.cur, 'r', op, 0, *data)
 
 
+def note_aux(*data):
+    run = _HOOK['run']
+    if run is not None and not run.over and run.cur is not None:
+        run.log(run.cur, 'aux') if not data else run.log(run.cur, 'aux', *data)
+
+
+ALT_PROT = {}       # id(application) -> the alternate output protocol instance its methods may switch to
+
+
 def services():
     """service and model classes are created once per process (like a real deployment)"""
     if _SVC:
         return _SVC
-    from spyne import rpc, ServiceBase, Integer, Unicode, ComplexModel, Array, Fault, Boolean
+    from spyne import rpc, ServiceBase, Integer, Unicode, ComplexModel, Array, Fault, Boolean, Iterable, ByteArray
+    from spyne.model.enum import Enum
+    from spyne.model.complex import XmlAttribute
+    from spyne.auxproc.sync import SyncAuxProc
     from spyne.protocol.json import JsonDocument
 
     class Item(ComplexModel):
@@ -1095,6 +1140,7 @@ def services():
         # member order that only the JSON protocol has: its sort_fields puts `second` first
         first = Unicode(pa={JsonDocument: dict(order=1)})
         second = Integer(pa={JsonDocument: dict(order=0)})
+        last = Unicode(pa={JsonDocument: dict(order=-1)}, default='z')
 
     class Svc(ServiceBase):
         @rpc(Integer, Integer, _returns=Integer)
@@ -1134,8 +1180,100 @@ def services():
         @rpc(Unicode, _returns=Unicode)
         def teapot(ctx, s):
             ctx.transport.resp_code = '418 I am a teapot'
-            ctx.transport.resp_headers['X-Tea'] = s
+            ctx.transport.resp_headers['X-Tea'] = [s, s + s]        # a multi-valued header
             return s
+
+        # lazily produced responses: the body is generated while the transport hands it out
+        @rpc(Integer, _returns=Iterable(Unicode))
+        def gen(ctx, n):
+            ctx.transport.resp_headers['X-Gen'] = 'n=%d' % n        # runs before start_response (first-yield hack)
+            for i in range(n):
+                yield u'g%d' % i
+
+        @rpc(Integer, _returns=Iterable(Unicode))
+        def genfault(ctx, n):
+            for i in range(n):
+                yield u'g%d' % i
+            raise Fault('Client.GenBoom', 'after %d' % n)
+
+        @rpc(Integer, _returns=Iterable(Unicode))
+        def gencrash(ctx, n):
+            for i in range(n):
+                yield u'g%d' % i
+            raise KeyError('gen %d' % n)
+
+    class ReqHeader(ComplexModel):
+        __namespace__ = 'c12'
+        token = Unicode
+
+    class RespHeader(ComplexModel):
+        __namespace__ = 'c12'
+        echo = Unicode
+
+    class Oops(Fault):
+        __namespace__ = 'c12'
+
+    class HdrSvc(ServiceBase):
+        """second service of the SOAP applications: SOAP headers in and out, a declared fault, a docstring"""
+        __in_header__ = ReqHeader
+        __out_header__ = RespHeader
+
+        @rpc(Unicode, _returns=Unicode, _throws=Oops)
+        def hdr(ctx, s):
+            """echoes the token of the request header into the response header"""
+            tok = ctx.in_header.token if ctx.in_header is not None else None
+            ctx.out_header = RespHeader(echo=u'%s/%s' % (tok, s))
+            if s == u'oops':
+                raise Oops('Client.Oops', u'%s' % tok)
+            return u'hdr:' + s
+
+    class PtSvc(ServiceBase):
+        """third service: its own port types"""
+        __port_types__ = ('PtA', 'PtB')
+
+        @rpc(Unicode, _returns=Unicode, _port_type='PtA')
+        def pa(ctx, s):
+            return u'a' + s
+
+        @rpc(Unicode, _returns=Unicode, _port_type='PtB')
+        def pb(ctx, s):
+            return u'b' + s
+
+    class AuxSvc(ServiceBase):
+        """auxiliary processor: runs after the primary `add` of the same request, in its own AuxMethodContext"""
+        __aux__ = SyncAuxProc()
+
+        @rpc(Integer, Integer)
+        def add(ctx, a, b):
+            note_aux(a, b)
+            if a == 40:
+                raise ValueError('aux failure (reported by the transport, must not reach the response)')
+
+    Color = Enum('red', 'green', 'blue', type_name='Color')
+
+    class Part(ComplexModel):
+        __namespace__ = 'c12'
+        code = XmlAttribute(Unicode)
+        weight = Integer(nillable=True)
+
+    class XSvc(ServiceBase):
+        """plain XmlDocument application"""
+        @rpc(Integer, Integer, _returns=Integer)
+        def add(ctx, a, b):
+            return a + b
+
+        @rpc(Array(Integer), Color, ByteArray, Part, _returns=Array(Unicode))
+        def types(ctx, nums, color, data, part):
+            return [u'%s' % (nums,), u'%s' % color, u'%d' % len(b''.join(data or [])),
+                    u'%s/%s' % (getattr(part, 'code', None), getattr(part, 'weight', None))]
+
+        @rpc(Part, _returns=Part)
+        def part(ctx, p):
+            return Part(code=(p.code or u'') + u'!', weight=None)
+
+        @rpc(Unicode, _returns=Unicode)
+        def boom(ctx, s):
+            raise Fault('Client.Boom', s)
 
     class HSvc(ServiceBase):
         @rpc(Unicode, Integer, _returns=Tagged)
@@ -1154,6 +1292,18 @@ def services():
         def ordered(ctx, a, b):
             return Ordered(first=a, second=b)
 
+        # per-request choice of the output protocol: one instance shared by all requests of the application
+        @rpc(Unicode, _returns=Tagged)
+        def asxml(ctx, label):
+            ctx.out_protocol = ALT_PROT[id(ctx.app)]
+            return Tagged(label=label, count=len(label))
+
+        @rpc(Integer, _returns=Iterable(Unicode))
+        def gen(ctx, n):
+            ctx.transport.resp_headers['X-Gen'] = 'n=%d' % n
+            for i in range(n):
+                yield u'g%d' % i
+
         @rpc(Unicode, _returns=Unicode)
         def login(ctx, user):
             note('setCtx')
@@ -1170,7 +1320,8 @@ def services():
             ctx.transport.resp_headers['X-Tea'] = s
             return s
 
-    _SVC.update(Ordered=Ordered, Item=Item, Tagged=Tagged, Svc=Svc, HSvc=HSvc)
+    _SVC.update(Ordered=Ordered, Item=Item, Tagged=Tagged, Svc=Svc, HSvc=HSvc, HdrSvc=HdrSvc, PtSvc=PtSvc, AuxSvc=AuxSvc,
+                XSvc=XSvc)
     return _SVC
 
 
@@ -1190,25 +1341,41 @@ def make_instance(fx):
     from spyne.server.wsgi import WsgiApplication
     S = services()
     reset_global_caches()
+    from spyne.protocol.xml import XmlDocument
+    soap_services = [S['Svc'], S['HdrSvc'], S['PtSvc'], S['AuxSvc']]
+    chunked = True
     if fx == 'soap':
-        app = Application([S['Svc']], 'c12', in_protocol=Soap11(validator='lxml'), out_protocol=Soap11())
+        app = Application(soap_services, 'c12', in_protocol=Soap11(validator='lxml'), out_protocol=Soap11())
     elif fx == 'soft':
-        app = Application([S['Svc']], 'c12', in_protocol=Soap11(validator='soft'), out_protocol=Soap11())
+        app = Application(soap_services, 'c12', in_protocol=Soap11(validator='soft'), out_protocol=Soap11())
     elif fx == 'http':
         app = Application([S['HSvc']], 'c12', in_protocol=HttpRpc(validator='soft'), out_protocol=JsonDocument())
+        ALT_PROT.clear()
+        ALT_PROT[id(app)] = XmlDocument()       # not bound to the application yet: the first request that uses it binds it
+        chunked = False                         # the whole body is joined before it is handed to the server
+    elif fx == 'xml':
+        app = Application([S['XSvc']], 'c12', in_protocol=XmlDocument(validator='lxml'), out_protocol=XmlDocument())
     else:
         raise core.Infra('unknown fixture ' + fx)
-    return WsgiApplication(app)
+    return WsgiApplication(app, chunked=chunked)
 
 
-def soap_body(method, inner):
-    return ('<soapenv:Envelope xmlns:soapenv="http://schemas.xmlsoap.org/soap/envelope/" xmlns:t="c12">'
-            '<soapenv:Body><t:%s>%s</t:%s></soapenv:Body></soapenv:Envelope>' % (method, inner, method)).encode()
+def soap_body(method, inner, header=''):
+    return ('<soapenv:Envelope xmlns:soapenv="http://schemas.xmlsoap.org/soap/envelope/" xmlns:t="c12">%s'
+            '<soapenv:Body><t:%s>%s</t:%s></soapenv:Body></soapenv:Envelope>' % (header, method, inner, method)).encode()
 
 
-def R(name, fx, kind='rpc', method='POST', path='/', qs='', body=None):
+def R(name, fx, kind='rpc', method='POST', path='/', qs='', body=None, env=None, aux=None):
     return {'name': name, 'fx': fx, 'kind': kind, 'method': method, 'path': path, 'qs': qs,
-            'body': None if body is None else body.decode('latin-1')}
+            'body': None if body is None else body.decode('latin-1'), 'env': env or {}, 'aux': aux}
+
+
+def soap_hdr(token):
+    return '<soapenv:Header><t:ReqHeader><t:token>%s</t:token></t:ReqHeader></soapenv:Header>' % token
+
+
+def xml_body(method, inner):
+    return ('<t:%s xmlns:t="c12">%s</t:%s>' % (method, inner, method)).encode()
 
 
 def request_universe():
@@ -1216,8 +1383,21 @@ def request_universe():
     for fx in ('soap', 'soft'):
         u += [R('wsdl', fx, 'wsdl', 'GET', '/', 'wsdl'),
               R('wsdl2', fx, 'wsdl', 'GET', '/', 'WSDL'),
-              R('add(1,2)', fx, body=soap_body('add', '<t:a>1</t:a><t:b>2</t:b>')),
-              R('add(40,2)', fx, body=soap_body('add', '<t:a>40</t:a><t:b>2</t:b>')),
+              R('add(1,2)', fx, body=soap_body('add', '<t:a>1</t:a><t:b>2</t:b>'), aux=[1, 2]),
+              R('add(40,2)', fx, body=soap_body('add', '<t:a>40</t:a><t:b>2</t:b>'), aux=[40, 2],
+                env={'HTTP_HOST': 'other.c12.test:8080', 'HTTP_X_TRACE': 'abc'}),
+              R('gen(3)', fx, body=soap_body('gen', '<t:n>3</t:n>')),
+              R('gen(0)', fx, body=soap_body('gen', '<t:n>0</t:n>')),
+              R('genfault(2)', fx, body=soap_body('genfault', '<t:n>2</t:n>')),
+              R('genfault(0)', fx, body=soap_body('genfault', '<t:n>0</t:n>')),
+              R('gencrash(1)', fx, body=soap_body('gencrash', '<t:n>1</t:n>')),
+              R('gencrash(0)', fx, body=soap_body('gencrash', '<t:n>0</t:n>')),
+              R('hdr(T1,x)', fx, body=soap_body('hdr', '<t:s>x</t:s>', soap_hdr('T1'))),
+              R('hdr(T2,y)', fx, body=soap_body('hdr', '<t:s>y</t:s>', soap_hdr('T2'))),
+              R('hdr(-,z)', fx, body=soap_body('hdr', '<t:s>z</t:s>')),
+              R('hdr(T3,oops)', fx, body=soap_body('hdr', '<t:s>oops</t:s>', soap_hdr('T3'))),
+              R('pa(q)', fx, body=soap_body('pa', '<t:s>q</t:s>')),
+              R('pb(r)', fx, body=soap_body('pb', '<t:s>r</t:s>')),
               R('add(x,2)', fx, body=soap_body('add', '<t:a>x</t:a><t:b>2</t:b>')),
               R('add(1,y)', fx, body=soap_body('add', '<t:a>1</t:a><t:b>yy</t:b>')),
               R('rep(ab,3)', fx, body=soap_body('rep', '<t:s>ab</t:s><t:n>3</t:n>')),
@@ -1246,7 +1426,22 @@ def request_universe():
           R('hlogin(eve)', 'http', method='GET', path='/login', qs='user=eve'),
           R('hwhoami(al)', 'http', method='GET', path='/whoami', qs='user=al'),
           R('hteapot(y)', 'http', method='GET', path='/teapot', qs='s=y'),
+          R('asxml(k)', 'http', method='GET', path='/asxml', qs='label=k'),
+          R('asxml(mm)', 'http', method='GET', path='/asxml', qs='label=mm'),
+          R('hgen(2)', 'http', method='GET', path='/gen', qs='n=2'),
+          R('hbare', 'http', method='GET', path='/add', qs='flag&a=5&b=6', env={'HTTP_HOST': 'h.c12.test'}),
           R('hnone', 'http', method='GET', path='/nosuch', qs='')]
+    part = '<t:p t:code="c7"><t:weight>3</t:weight></t:p>'
+    u += [R('xadd(1,2)', 'xml', body=xml_body('add', '<t:a>1</t:a><t:b>2</t:b>')),
+          R('xadd(x,2)', 'xml', body=xml_body('add', '<t:a>x</t:a><t:b>2</t:b>')),
+          R('xtypes', 'xml', body=xml_body('types', '<t:nums><t:integer>1</t:integer><t:integer>2</t:integer></t:nums>'
+                                                    '<t:color>green</t:color><t:data>aGVsbG8=</t:data>'
+                                                    '<t:part code="c1"><t:weight>5</t:weight></t:part>')),
+          R('xtypes-bad', 'xml', body=xml_body('types', '<t:color>purple</t:color>')),
+          R('xpart(c7)', 'xml', body=xml_body('part', '<t:p code="c7"><t:weight>3</t:weight></t:p>')),
+          R('xpart(nil)', 'xml', body=xml_body('part', '<t:p code="c8"><t:weight xmlns:xsi="http://www.w3.org/2001/XMLSchema-instance" xsi:nil="true"/></t:p>')),
+          R('xboom(e)', 'xml', body=xml_body('boom', '<t:s>e</t:s>')),
+          R('xgarbage', 'xml', body=b'<<<')]
     return u
 
 
@@ -1254,6 +1449,7 @@ def call(w, req):
     env = {'REQUEST_METHOD': req['method'], 'PATH_INFO': req['path'], 'QUERY_STRING': req['qs'],
            'SERVER_NAME': 'c12.test', 'SERVER_PORT': '80', 'wsgi.url_scheme': 'http', 'SCRIPT_NAME': '',
            'CONTENT_TYPE': 'text/xml; charset=utf-8'}
+    env.update(req.get('env') or {})
     if req['body'] is not None:
         b = req['body'].encode('latin-1')
         env['wsgi.input'] = io.BytesIO(b)
@@ -1376,6 +1572,27 @@ class Env:
 
 # ====================================================================================== pristine child processes
 
+_CHILD_COV = {}
+
+
+def _child_coverage_start():
+    """under tools/covreport.py: measure this forked child with a sys.monitoring based collector of its own — the
+    scheduler owns sys.settrace in the request threads, so the inherited trace-function collector would not see
+    the lines executed under a schedule"""
+    try:
+        import coverage
+        old = coverage.Coverage.current()
+        if old is not None:
+            old.stop()
+            old.save()
+        os.environ['COVERAGE_CORE'] = 'sysmon'
+        cov = coverage.Coverage(config_file=os.environ['COVERAGE_PROCESS_START'], data_suffix=True)
+        cov.start()
+        _CHILD_COV['cov'] = cov
+    except Exception:       # noqa
+        _CHILD_COV.clear()
+
+
 class ChildDied(Exception):
     """the forked interpreter was killed (segfault, abort) before it could answer; args[0] = wait status"""
 
@@ -1391,6 +1608,8 @@ def in_child(fn, *args):
         code = 0
         try:
             os.close(rfd)
+            if os.environ.get('COVERAGE_PROCESS_START'):
+                _child_coverage_start()
             try:
                 data = pickle.dumps(('ok', fn(*args)))
             except BaseException:      # noqa
@@ -1400,6 +1619,15 @@ def in_child(fn, *args):
             with os.fdopen(wfd, 'wb') as f:
                 f.write(data)
         finally:
+            if os.environ.get('COVERAGE_PROCESS_START'):
+                try:                    # tools/covreport.py: the forked child reports the lines it executed
+                    import coverage
+                    cov = _CHILD_COV.get('cov') or coverage.Coverage.current()
+                    if cov is not None:
+                        cov.stop()
+                        cov.save()
+                except Exception:       # noqa
+                    pass
             os._exit(code)
     os.close(wfd)
     with os.fdopen(rfd, 'rb') as f:
@@ -1560,6 +1788,13 @@ class Harness:
                 fid = 'wsdl-differs' if r['kind'] == 'wsdl' else 'response-differs:' + self.classify_diff(r, exp, got)
                 bad.append((fid, 'thread %d (%s) received a response that differs from the one it receives alone' % (i, r['name']),
                             {'thread': i, 'expected': show_resp(exp), 'got': show_resp(got)}))
+        # the auxiliary method of a request runs exactly once, with that request's arguments
+        for i, r in enumerate(reqs):
+            if r.get('aux') is not None and case['responses'][i] is not None:
+                seen = [list(e[2:]) for e in case['trace'] if e[0] == i and e[1] == 'aux']
+                if seen != [list(r['aux'])]:
+                    bad.append(('aux-context', 'the auxiliary method of thread %d (%s) ran with %s instead of once with %s' % (
+                        i, r['name'], seen, r['aux']), {'thread': i}))
         if case['builds'] - len(raised) > 1:
             bad.append(('wsdl-built-2-times', 'build_interface_document ran %d times (%d of them raised)' % (case['builds'], len(raised)), {}))
         if not bad:
@@ -1628,6 +1863,9 @@ class Harness:
                             progs[2 * n] += [['publish', ckind, kid, pa], ['complete', ckind, kid, pa]]
                     progs[mt].append([op, ckind, kid, pa])
                     sched.append(mt)
+                    if op == 'publish' and ckind == 'bind' and mt == tid and hit and \
+                            case['responses'][tid] != self.oracle(reqs[tid]):
+                        obs[tid].append(['exc'])      # binding the already bound instance failed this request
                     if op == 'probe' and mt == tid:
                         hits[tid].append(hit)
                         obs[tid].append(['val', ckind, kid, val if hit else 'full'])
@@ -1819,7 +2057,7 @@ def shared_writes():
     found = {}
     ctx_cells = {}
     universe = request_universe()
-    for fx in ('soap', 'soft', 'http'):
+    for fx in ('soap', 'soft', 'http', 'xml'):
         w = make_instance(fx)
         reqs = [r for r in universe if r['fx'] == fx]
         for rnd in ('cold', 'warm'):
@@ -1916,6 +2154,7 @@ def measure_facts():
         order[r.kind] = r.order if prev in (None, 'afterInit') else prev
     parked, ctx_cells = in_child(shared_writes)
     return {'wsdl': wsdl, 'roles': roles, 'val': val, 'order': order, 'parked': parked, 'ctx_cells': ctx_cells,
+            'rebindRaises': in_child(rebind_raises),
             'skeleton': wsdl['instrs'], 'builderResets': wsdl['builder_resets'], 'errRead': val['mode']}
 
 
@@ -1937,19 +2176,22 @@ def facts12 : Facts12 where
   sortPublish := %s
   memoPublish := %s
   cdictPublish := %s
+  bindPublish := %s
+  rebindRaises := %s
   errRead := %s
   parked := [%s]
   sharedContextCells := [%s]
 
 end SpyneModel.Generated
 ''' % (',\n    '.join(lean_instr(i) for i in f['skeleton']), 'true' if f['builderResets'] else 'false',
-       po('attr'), po('sort'), po('memo'), po('cdict'), '.underLock' if f['errRead'] == 'underLock' else '.racy',
+       po('attr'), po('sort'), po('memo'), po('cdict'), po('bind'), 'true' if f['rebindRaises'] else 'false',
+       '.underLock' if f['errRead'] == 'underLock' else '.racy',
        ', '.join(json.dumps(p) for p in sorted(f['parked'])), ', '.join(json.dumps(p) for p in sorted(f['ctx_cells'])))
 
 
 # ====================================================================================== main
 
-GOOD_ORDER = {'attr': 'afterInit', 'sort': 'afterInit', 'memo': 'afterInit', 'cdict': 'afterInit'}
+GOOD_ORDER = {'attr': 'afterInit', 'sort': 'afterInit', 'memo': 'afterInit', 'cdict': 'afterInit', 'bind': 'afterInit'}
 SHARED_OPS = ('loadCache', 'loadPub', 'storeCache', 'acquire', 'release', 'buildBegin', 'buildPorts', 'buildPublish')
 
 
@@ -1980,6 +2222,8 @@ def make_policy(spec):
         return AfterEvent(0, is_val, 1, AfterEvent(1, is_val, 1, Legs([(0, None), (1, None)])))
     if k == 'after-publish':   # thread 0 stores its j-th cache entry with protocol attributes, thread 1 runs
         return AfterEvent(0, is_pub_pa, spec[1], Legs([(1, None), (0, None)]))
+    if k == 'after-bind-probe':
+        return AfterEvent(0, lambda e: e[1] == 'r' and e[2] == 'probe' and e[3] == 'bind', 1, Legs([(1, None), (0, None)]))
     if k == 'after-any-publish':
         return AfterEvent(0, is_pub, spec[1], Legs([(1, None), (0, None)]))
     raise core.Infra('unknown schedule spec %r' % (spec,))
@@ -2091,16 +2335,25 @@ def phase_wsdl_failures(E, rng, T):
                 E.execute(fx, names, ['seq', sched], 'all', 'mixed-fail-random', [kind, 1])
 
 
-def phase_witness(E, rng, T):
-    """the witness schedules of the validator and attrcache theorems, on every suitable request pair"""
+def phase_witness(E, rng, T, part='errlog'):
+    """the witness schedules of the validator and cache theorems, on suitable request pairs"""
     U = E.H.universe
+    if part == 'cache':
+        return phase_witness_cache(E, rng, T)
     soap_all = [r['name'] for r in U.values() if r['fx'] == 'soap']
     invalid = [n for n in soap_all if E.H.is_invalid(U[('soap', n)])]
     for a in invalid:
-        for b in soap_all:
-            if U[('soap', b)]['kind'] == 'wsdl' and T == 1:
-                continue
+        others = [b for b in soap_all if b not in invalid and (T > 1 or U[('soap', b)]['kind'] != 'wsdl')]
+        partners = invalid + (others if T > 1 else rng.sample(others, min(6, len(others))))
+        for b in partners:
             E.execute('soap', [a, b], ['after-validate'], 'all', 'witness-errlog')
+
+
+def phase_witness_cache(E, rng, T):
+    U = E.H.universe
+    # two first users of the not yet bound alternate protocol: the first is pre-empted between its test and its bind
+    for a, b in (('asxml(k)', 'asxml(mm)'), ('asxml(mm)', 'asxml(k)'), ('asxml(k)', 'asxml(k)')):
+        E.execute('http', [a, b], ['after-bind-probe'], 'all', 'witness-protocol-bind')
     http_all = [r['name'] for r in U.values() if r['fx'] == 'http']
     for a in http_all:
         seqcase = E.execute('http', [a], ['legs', [[0, None]]], 'all', 'sequential')
@@ -2123,6 +2376,27 @@ def phase_publish_sweep(E, rng, T, fx):
                 E.execute(fx, [a, b], ['after-any-publish', j], 'all', 'witness-every-publish')
 
 
+CONTEXT_PAIRS = {
+    'soap': [('teapot(x)', 'add(1,2)'), ('login(bob)', 'whoami(al)'), ('hdr(T1,x)', 'hdr(T2,y)'), ('gen(3)', 'teapot(x)'),
+             ('add(1,2)', 'add(40,2)'), ('hdr(T3,oops)', 'genfault(2)')],
+    'http': [('hteapot(y)', 'hadd(1,2)'), ('hlogin(bob)', 'hwhoami(al)'), ('asxml(k)', 'make(a,3)'), ('hgen(2)', 'hlogin(eve)')],
+}
+
+
+def phase_context_sweep(E, rng, T, fx):
+    """per-request state (status, response headers, SOAP headers, aux contexts, output protocol, lazily produced body):
+    two requests that differ in it; the first is pre-empted at evenly spread points of its whole run (every point in
+    the thorough tier), the second runs to completion in between"""
+    for a, b in CONTEXT_PAIRS[fx]:
+        for x, y in ((a, b), (b, a)):
+            base = E.execute(fx, [x, y], ['legs', [[0, None], [1, None]]], 'all', 'sequential')
+            n_first = max(1, base['npoints'][0])
+            stride = 1 if T > 1 and n_first < 400 else max(1, n_first // (30 * T))
+            off = rng.randrange(stride)
+            for k in range(off, n_first + 1, stride):
+                E.execute(fx, [x, y], ['legs', [[0, k], [1, None], [0, None]]], 'all', 'context-1preempt')
+
+
 def phase_mixed(E, rng, T, fx):
     """mixed requests: 1 and 2 pre-emptions at sampled statement boundaries of the shared-state code, random schedules"""
     U = E.H.universe
@@ -2137,7 +2411,7 @@ def phase_mixed(E, rng, T, fx):
     for _ in range(4 * T):
         tuples.append([rng.choice(names_all) for _ in range(4)])
     rng.shuffle(tuples)
-    deadline = time.time() + (900 if T > 1 else 75)      # safety net only; the counts above are the budget
+    deadline = time.time() + (1500 if T > 1 else 400)   # safety net only (a saturated machine); the counts above are the budget
     for names in tuples:
         if time.time() > deadline:
             E.sink.emit(t='hit', key='budget-cut:' + fx)
@@ -2145,16 +2419,16 @@ def phase_mixed(E, rng, T, fx):
         nthr = len(names)
         base = E.execute(fx, names, ['legs', [[t, None] for t in range(nthr)]], 'all', 'sequential')
         n_first = max(1, base['npoints'][0])
-        ks = sorted(set([rng.randrange(n_first + 1) for _ in range(4 * T)] + [rng.randrange(min(40, n_first) + 1)]))
+        ks = sorted(set([rng.randrange(n_first + 1) for _ in range(3 * T)] + [rng.randrange(min(40, n_first) + 1)]))
         for k in ks:
             rest = list(range(1, nthr))
             rng.shuffle(rest)
             E.execute(fx, names, ['legs', [[0, k]] + [[t, None] for t in rest] + [[0, None]]], 'all', 'mixed-1preempt')
-        for _ in range(2 * T):
+        for _ in range(2 * T - 1):
             k1, k2 = rng.randrange(n_first + 1), rng.randrange(max(1, base['npoints'][1]) + 1)
             E.execute(fx, names, ['legs', [[0, k1], [1, k2]] + [[t, None] for t in range(2, nthr)] + [[0, None], [1, None]]],
                       'all', 'mixed-2preempt')
-        for _ in range(2 * T):
+        for _ in range(2 * T - 1):
             sched = []
             while len(sched) < 400:
                 sched += [rng.randrange(nthr)] * rng.choice([1, 1, 2, 3, 5, 8, 13, 40])
@@ -2202,10 +2476,10 @@ def phase_stress(E, rng, T):
     H = E.H
     U = H.universe
     for i in range(40 * T):
-        fx = ('soap', 'soft', 'http')[i % 3]
+        fx = ('soap', 'soft', 'http', 'xml')[i % 4]
         names_all = [r['name'] for r in U.values() if r['fx'] == fx]
         names = [rng.choice(names_all) for _ in range(4)]
-        if fx != 'http':
+        if fx in ('soap', 'soft'):
             names[0] = 'wsdl'
             names[1] = rng.choice(['wsdl2', names[1]])
         E.sink.emit(t='start', fx=fx, reqs=names, spec=['free-running'], mode='stress', sched='stress')
@@ -2241,7 +2515,7 @@ def run(ctx):
     H = Harness(ctx, f)
     env = H.env
     ctx.cov['facts'] = {'skeleton': f['skeleton'], 'skeleton_notes': f['wsdl']['notes'], 'builderResets': f['builderResets'],
-                        'order': f['order'], 'errRead': f['errRead'], 'parked': f['parked'], 'sharedContextCells': f['ctx_cells'],
+                        'order': f['order'], 'rebindRaises': f['rebindRaises'], 'errRead': f['errRead'], 'parked': f['parked'], 'sharedContextCells': f['ctx_cells'],
                         'context_classes': sorted(context_classes()),
                         'skeleton_is_expected': f['skeleton'] == EXPECTED}
     ctx.assumptions += [
@@ -2262,6 +2536,8 @@ def run(ctx):
             bad_facts.append('%sPublish=%s' % (k, f['order'].get(k)))
     if f['errRead'] != 'underLock':
         bad_facts.append('errRead=racy')
+    if f['rebindRaises']:
+        bad_facts.append('rebindRaises')
     if f['parked']:
         bad_facts.append('parked')
     if f['ctx_cells']:
@@ -2287,9 +2563,11 @@ def run(ctx):
     # under some schedule must not take the check down)
     scratch = os.path.join(core.VERIF, '.scratch', 'c12-%d' % os.getpid())
     os.makedirs(scratch, exist_ok=True)
-    phases = [('wsdl-a', phase_wsdl, ((0,),)), ('wsdl-b', phase_wsdl, ((1,),)), ('wsdl-fail', phase_wsdl_failures, ()), ('witness', phase_witness, ()), ('mixed-soap', phase_mixed, ('soap',)),
-              ('mixed-soft', phase_mixed, ('soft',)), ('mixed-http', phase_mixed, ('http',)), ('stress', phase_stress, ()),
-              ('publish-soap', phase_publish_sweep, ('soap',)), ('publish-http', phase_publish_sweep, ('http',))]
+    phases = [('wsdl-a', phase_wsdl, ((0,),)), ('wsdl-b', phase_wsdl, ((1,),)), ('wsdl-fail', phase_wsdl_failures, ()), ('witness-errlog', phase_witness, ('errlog',)), ('witness-cache', phase_witness, ('cache',)), ('mixed-soap', phase_mixed, ('soap',)),
+              ('mixed-soft', phase_mixed, ('soft',)), ('mixed-http', phase_mixed, ('http',)), ('mixed-xml', phase_mixed, ('xml',)),
+              ('stress', phase_stress, ()),
+              ('publish-soap', phase_publish_sweep, ('soap',)), ('publish-http', phase_publish_sweep, ('http',)),
+              ('context-soap', phase_context_sweep, ('soap',)), ('context-http', phase_context_sweep, ('http',))]
     if ctx.thorough:
         phases.append(('publish-soft', phase_publish_sweep, ('soft',)))
     mp = multiprocessing.get_context('fork')
